@@ -42,4 +42,12 @@ PROPS = {
             "theorems": "props/C19.v", "rule": "x", "trusted_base": TB_COMMON},
     "C06": {"stages": [{"harness": "THROTTLE", "corr": "corr.C06", "n": {"quick": 300, "thorough": 5000}, "shard": 25}],
             "theorems": "props/C19.v", "rule": "x", "trusted_base": TB_COMMON},
+    "C07": {"stages": [{"harness": "DET07", "corr": "corr.C07", "n": {"quick": 200, "thorough": 4000}, "shard": 20}],
+            "theorems": "props/C19.v", "rule": "x", "trusted_base": TB_COMMON},
+    "C08": {"stages": [{"harness": "DET08", "corr": "corr.C08", "n": {"quick": 200, "thorough": 4000}, "shard": 20}],
+            "theorems": "props/C19.v", "rule": "x", "trusted_base": TB_COMMON},
+    "C09": {"stages": [{"harness": "DET09", "corr": "corr.C09", "n": {"quick": 200, "thorough": 4000}, "shard": 20}],
+            "theorems": "props/C19.v", "rule": "x", "trusted_base": TB_COMMON},
+    "C15": {"stages": [{"harness": "DET15", "corr": "corr.C15", "n": {"quick": 200, "thorough": 4000}, "shard": 20}],
+            "theorems": "props/C19.v", "rule": "x", "trusted_base": TB_COMMON},
 }
